@@ -97,3 +97,31 @@ func staleContract(b []byte) int {
 	}
 	return n
 }
+
+type holder struct{ x int }
+
+// EXPECT pass
+func localInPost(h *holder, b []int) error {
+	if len(b) == 0 {
+		return ErrBad
+	}
+	last := 0
+	for i := 0; i < len(b); i++ {
+		last = b[i]
+	}
+	h.x = last
+	return nil
+}
+
+// EXPECT fail post:selftest.localInPostBad:stored
+func localInPostBad(h *holder, b []int) error {
+	if len(b) == 0 {
+		return ErrBad
+	}
+	last := 0
+	for i := 0; i < len(b); i++ {
+		last = b[i]
+	}
+	h.x = last + 1
+	return nil
+}
